@@ -24,6 +24,20 @@ struct Shared {
     /// client-side waker: woken on every write, on going idle and on close (multi-thread legs)
     client_waker: Option<Waker>,
     gen: u64,
+    /// at most this many bytes are accepted per poll_write (0 = everything): what a socket with a nearly full send buffer does
+    write_cap: usize,
+    /// every n-th poll_write returns Pending once (after waking itself), 0 = never
+    write_pend_every: usize,
+    write_calls: usize,
+}
+
+static DEFAULT_WRITE_CAP: std::sync::atomic::AtomicUsize = std::sync::atomic::AtomicUsize::new(0);
+static DEFAULT_WRITE_PEND: std::sync::atomic::AtomicUsize = std::sync::atomic::AtomicUsize::new(0);
+
+/// Write-side behaviour of every ScriptedStream created from now on (partial writes / spurious Pending).
+pub fn set_default_write_mode(cap: usize, pend_every: usize) {
+    DEFAULT_WRITE_CAP.store(cap, std::sync::atomic::Ordering::SeqCst);
+    DEFAULT_WRITE_PEND.store(pend_every, std::sync::atomic::Ordering::SeqCst);
 }
 
 pub struct ScriptedStream(Arc<Mutex<Shared>>);
@@ -71,8 +85,14 @@ impl AsyncRead for ScriptedStream {
 }
 
 impl AsyncWrite for ScriptedStream {
-    fn poll_write(self: Pin<&mut Self>, _cx: &mut Context<'_>, data: &[u8]) -> Poll<std::io::Result<usize>> {
+    fn poll_write(self: Pin<&mut Self>, cx: &mut Context<'_>, data: &[u8]) -> Poll<std::io::Result<usize>> {
         let mut s = self.0.lock().unwrap();
+        s.write_calls += 1;
+        if s.write_pend_every > 0 && s.write_calls % s.write_pend_every == 0 {
+            cx.waker().wake_by_ref();
+            return Poll::Pending;
+        }
+        let data = if s.write_cap > 0 && data.len() > s.write_cap { &data[..s.write_cap] } else { data };
         s.out.extend_from_slice(data);
         s.writes.push(data.len());
         s.gen += 1;
@@ -91,7 +111,10 @@ impl AsyncWrite for ScriptedStream {
 }
 
 pub fn scripted() -> (ScriptedStream, Controller) {
-    let sh = Arc::new(Mutex::new(Shared::default()));
+    let mut sh0 = Shared::default();
+    sh0.write_cap = DEFAULT_WRITE_CAP.load(std::sync::atomic::Ordering::SeqCst);
+    sh0.write_pend_every = DEFAULT_WRITE_PEND.load(std::sync::atomic::Ordering::SeqCst);
+    let sh = Arc::new(Mutex::new(sh0));
     (ScriptedStream(sh.clone()), Controller(sh))
 }
 
